@@ -1,6 +1,6 @@
 -------------------------------- MODULE Dag --------------------------------
-(* Abstract commit histories, shared by C46 (merge bases), C47 (commit walks)*)
-(* and C54 (connectivity).                                                  *)
+(* Abstract commit histories, shared by C46 (merge bases) and C47 (commit   *)
+(* walks); C54 (connectivity, Conn.tla) adds trees and blobs.               *)
 (*                                                                          *)
 (* A history is a record d = [par |-> <<p_1, .., p_N>>, time |-> <<t_1..>>] *)
 (* over the commits 1..N: p_c is the *ordered* list of parents of commit c  *)
@@ -64,7 +64,7 @@ MergeBases(d, first, others) ==
   IF others = {} THEN {first}
   ELSE MaximalIn(AncAll(d), CommonAnc(d, first, others))
 
-\* design-level statements about the definition (checked by Dag_Gen on every enumerated world)
+\* design-level statements about the definition (checked by DagMB_Gen on every enumerated world)
 MergeBasesSound(d, first, others) ==
   LET A == AncAll(d)
       M == MergeBases(d, first, others)
@@ -72,6 +72,7 @@ MergeBasesSound(d, first, others) ==
      /\ \A m1, m2 \in M : m1 # m2 => m1 \notin A[m2]                \* pairwise independent
      /\ \A c \in CommonAnc(d, first, others) : \E m \in M : c \in A[m]   \* nothing better is left out
      /\ (first \in others => M = {first})                           \* git's and gitoxide's shortcut agrees
+
 (* ------------------------------------------------------------------------ *)
 (* C47.  Commit walks.  `fp` = first-parent mode.                           *)
 Time(d, c) == d.time[c]
